@@ -191,8 +191,12 @@ class Replayer(object):
                 elif op == "from_affine":
                     R = self.ec.PointJacobi.from_affine(A, bool(k))
                     objs.append(R), vals.append(res), kinds.append("G" if k else "J")
-                elif op in ("double", "neg", "add", "mul", "muladd"):
-                    if op == "double":
+                elif op in ("double", "neg", "add", "iadd", "mul", "muladd"):
+                    if op == "iadd":
+                        # an alias obtained from the library itself (INFINITY + P, P + INFINITY and 1 * P may hand back P)
+                        R = [lambda: self.ec.INFINITY + A, lambda: A + self.ec.INFINITY, lambda: 1 * A, lambda: A][si % 4]()
+                        R += B
+                    elif op == "double":
                         R = A.double()
                     elif op == "neg":
                         R = -A
